@@ -24,16 +24,18 @@
 ; entryKey is opaque (usable as a pattern); reveal (entryKey c f v id) gives the layout
 (declare-fun entryKey (Str Str Val Str) Str)
 (define-fun entryKey!def ((c Str) (f Str) (v Val) (id Str)) Str (scat (scat (typePrefix c f v) (keyOf v)) id))
-; every entry key lies under its index prefix (instance of the layout)
-(assert (forall ((c Str) (f Str) (v Val) (id Str)) (! (hasPrefix (entryKey c f v id) (idxPrefix c f)) :pattern ((entryKey c f v id)))))
+; every entry key lies in the key space of its own index: instance of the layout, proved over entryKey!def as
+; lemma entry-under-index-keyspace (/verif/lemmas/keyspace.contracts)
+(assert (forall ((c Str) (f Str) (v Val) (id Str)) (! (hasPrefix (entryKey c f v id) (idxKS c f)) :pattern ((entryKey c f v id)))))
+(assert (forall ((c Str) (f Str)) (! (hasPrefix (idxKS c f) (idxPrefix c f)) :pattern ((idxKS c f)))))
 ; comp: F_index_indexBase_collection (Array Ref Str)
 ; comp: F_index_indexBase_field (Array Ref Str)
 ; statefun: entryOf F_index_indexBase_collection F_index_indexBase_field
 (define-fun entryOf ((cc (Array Ref Str)) (ff (Array Ref Str)) (ix Ref) (d Doc)) Str
   (entryKey (select cc (fld ix 0)) (select ff (fld ix 0)) (dget d (select ff (fld ix 0))) (docIdOf d)))
-; Key-space separation (consequence of the layout for collection names free of ';', assumption A14;
-; proved in the string theory by lemmas/keyspace.contracts): a document key is never an index entry key,
-; and the catalog key of a collection is neither.
+; Key-space separation (consequence of the layout for collection names free of ';', assumption A14): a document
+; key is never an index entry key, and the catalog key of a collection is neither. Axioms: not proved here
+; (they need "c contains no ';'" reasoning in a string theory).
 (assert (forall ((c Str) (id Str) (c2 Str) (f Str) (v Val) (id2 Str)) (! (not (= (docKey c id) (entryKey c2 f v id2))) :pattern ((docKey c id) (entryKey c2 f v id2)))))
 (assert (forall ((c Str) (c2 Str) (f Str) (v Val) (id2 Str)) (! (not (= (collKey c) (entryKey c2 f v id2))) :pattern ((collKey c) (entryKey c2 f v id2)))))
 (assert (forall ((c Str) (c2 Str) (id Str)) (! (not (= (collKey c) (docKey c2 id))) :pattern ((collKey c) (docKey c2 id)))))
